@@ -234,6 +234,16 @@ func registerJSONDB(e *Engine) {
 			v = Ptr{Obj: id}
 		}
 		c.St.Ghost["jsonobj:"+tok.S] = v
+		// wire size: the token stands for an encoding at least as long as the symbolic strings in it
+		var leaves []*Term
+		e.jsonSymStrings(c.St, c.Args[0], 0, &leaves)
+		if len(leaves) > 0 {
+			sz := IntC(int64(len(tok.S)))
+			for _, l := range leaves {
+				sz = intArith("+", sz, StrLenInt(l))
+			}
+			c.St.Ghost["jsonsize:"+tok.S] = sz
+		}
 		return c.Return(Tuple{Bytes{S: tok}, Iface{}})
 	}
 	e.Intr["encoding/json.Unmarshal"] = func(c *Call) []*State {
